@@ -200,7 +200,7 @@ def _eval_const(expr: str, env: dict):
         if isinstance(n, ast.UnaryOp) and type(n.op) in _UN:
             v = ev(n.operand)
             if isinstance(n.op, ast.UAdd):
-                return v
+                return +v
             if isinstance(n.op, ast.USub):
                 return -v
             if isinstance(n.op, ast.Not):
